@@ -58,6 +58,13 @@ class Tup:
 
 
 @dataclass
+class IGrid:
+    """integer tensor of a known shape with all entries in [0, bound)"""
+    shape: list
+    bound: object
+
+
+@dataclass
 class IntV:
     p: object
 
@@ -72,6 +79,11 @@ UNK = Unk()
 
 class _Fail(Exception):
     pass
+
+
+class _Ret(Exception):
+    def __init__(self, v):
+        self.v = v
 
 
 def _sz(fam, idx):
@@ -91,6 +103,36 @@ class Ranges:
         self.loop_dir = None      # 'asc' | 'desc'
         self.callback = self.f.params()[0]
         self.seen = {}
+        self.depth = 0
+        self.f_cur = self.f
+        self.nm = self.infer_names()
+        from .rules import order_names
+        self.orders = order_names(self.f.node) | {"d"}
+
+    def infer_names(self):
+        """the arrays are recognised by how they are initialised / stored, not by their names"""
+        nm = {"Idx": "Idx", "Ps": "Ps", "cores": "cores", "rank": "rank", "N": "N", "Rm": "Rm"}
+        f = self.f
+        for s in f.node.body:
+            if isinstance(s, ast.Assign) and len(s.targets) == 1 and isinstance(s.targets[0], ast.Name):
+                t = s.targets[0].id
+                calls = [c for c in ast.walk(s.value) if isinstance(c, ast.Call) and isinstance(c.func, ast.Attribute)]
+                shapes = [norm(c.args[0]).replace(" ", "") for c in calls if c.args and c.func.attr in ("zeros", "ones")]
+                has_none = any(isinstance(c, ast.Constant) and c.value is None for c in ast.walk(s.value))
+                if has_none and "(1,0)" in shapes and "(0,1)" in shapes:
+                    nm["Idx"] = t
+                elif has_none and shapes.count("(1,1)") == 2:
+                    nm["Ps"] = t
+                elif not has_none and shapes == ["(1,1)"] and isinstance(s.value, ast.Call):
+                    nm["Rm"] = t
+        for n in ast.walk(f.node):
+            if isinstance(n, ast.Assign) and len(n.targets) == 1 and isinstance(n.targets[0], ast.Subscript) and isinstance(n.targets[0].value, ast.Name) \
+                    and isinstance(n.value, ast.Call) and norm(n.value.func).endswith("reshape") and len(n.value.args) == 2 and isinstance(n.value.args[1], ast.List):
+                el = n.value.args[1].elts
+                if len(el) == 3 and all(isinstance(e, ast.Subscript) and isinstance(e.value, ast.Name) for e in el) and el[0].value.id == el[2].value.id:
+                    nm["cores"], nm["rank"], nm["N"] = n.targets[0].value.id, el[0].value.id, el[1].value.id
+                    break
+        return nm
 
     # ------------------------------------------------------------------ reporting
     def ob(self, rule, node, status, detail, construct=None):
@@ -98,7 +140,7 @@ class Ranges:
         n = self.seen.get((rule, text), 0)
         self.seen[(rule, text)] = n + 1
         key = f"{self.short}:{rule}:{text}:{n}"
-        self.obs.append(Ob(rule, key, status, self.model.where(self.f, node), construct or text, detail, nontrivial=True))
+        self.obs.append(Ob(rule, key, status, self.model.where(self.f_cur, node), construct or text, detail, nontrivial=True))
 
     def eq(self, a, b):
         if a is None or b is None:
@@ -117,7 +159,7 @@ class Ranges:
             v = self.env.get(e.id)
             if isinstance(v, IntV):
                 return v.p
-            if e.id == "d":
+            if e.id in self.orders:
                 return self.d
             if e.id == "kick":
                 return P.atom("kick")
@@ -133,11 +175,11 @@ class Ranges:
             if isinstance(e.op, ast.Mult):
                 return a * b
             return None
-        if isinstance(e, ast.Subscript) and isinstance(e.value, ast.Name) and e.value.id in ("N", "rank"):
+        if isinstance(e, ast.Subscript) and isinstance(e.value, ast.Name) and e.value.id in (self.nm["N"], self.nm["rank"]):
             i = self.int_of(e.slice)
             if i is None:
                 return None
-            return _sz(e.value.id, self.facts.norm(i))
+            return _sz("N" if e.value.id == self.nm["N"] else "rank", self.facts.norm(i))
         if isinstance(e, ast.Subscript) and isinstance(e.value, ast.Attribute) and e.value.attr == "shape":
             v = self.ev(e.value.value)
             i = self.int_of(e.slice)
@@ -149,7 +191,7 @@ class Ranges:
                 return None
             return None
         if isinstance(e, ast.Call) and isinstance(e.func, ast.Name) and e.func.id == "len" and len(e.args) == 1 and isinstance(e.args[0], ast.Name) \
-                and e.args[0].id == "N":
+                and e.args[0].id == self.nm["N"]:
             return self.d
         if isinstance(e, ast.Call) and isinstance(e.func, ast.Name) and e.func.id == "min" and len(e.args) == 2:
             a, b = self.int_of(e.args[0]), self.int_of(e.args[1])
@@ -212,6 +254,17 @@ class Ranges:
                 return Mat(1, [("one", v.bound)], v.length)
             if len(tgt) == 2 and tgt[1] == -1 and self.eq(tgt[0], ONE):
                 return Mat(0, [("one", v.bound)], v.length)
+            if len(tgt) > 2 and tgt.count(-1) == 1 and all(t == -1 or self.eq(t, ONE) for t in tgt):
+                return IGrid([v.length if t == -1 else ONE for t in tgt], v.bound)      # arange(n).reshape([1, -1, 1, 1])
+            return UNK
+        if isinstance(v, IGrid):
+            tot = self._numel(v.shape)
+            if len(tgt) == 1 and tgt[0] == -1:
+                return Vec(tot, v.bound)
+            if len(tgt) == 2 and tgt[0] == -1 and self.eq(tgt[1], ONE):
+                return Mat(1, [("one", v.bound)], tot)
+            if len(tgt) == 2 and tgt[1] == -1 and self.eq(tgt[0], ONE):
+                return Mat(0, [("one", v.bound)], tot)
             return UNK
         if isinstance(v, Mat):
             # reshape(eval_index, [-1, d]) of a matrix that already has its modes along the columns: a no-op when the column count is d
@@ -248,6 +301,17 @@ class Ranges:
             l, r = self.ev(e.left), self.ev(e.right)
             if isinstance(e.op, ast.MatMult) and isinstance(l, Sh) and isinstance(r, Sh) and len(l.shape) == 2 and len(r.shape) == 2:
                 return Sh([l.shape[0], r.shape[1]])
+            if isinstance(e.op, ast.Add) and isinstance(l, IGrid) and isinstance(r, IGrid) and len(l.shape) == len(r.shape) \
+                    and l.bound is not None and r.bound is not None:
+                shp = []
+                for a_, b_ in zip(l.shape, r.shape):
+                    if self.eq(a_, ONE):
+                        shp.append(b_)
+                    elif self.eq(b_, ONE) or self.eq(a_, b_):
+                        shp.append(a_)
+                    else:
+                        raise _Fail()
+                return IGrid(shp, self.facts.norm(l.bound + r.bound - 1))
             if isinstance(e.op, ast.Add):
                 # x + 0 copy idiom
                 if isinstance(e.right, ast.Constant) and e.right.value == 0:
@@ -281,7 +345,7 @@ class Ranges:
 
     def _subscript(self, e):
         # Idx[j][sel, :]  /  Idx[j][:, sel]
-        if isinstance(e.value, ast.Subscript) and isinstance(e.value.value, ast.Name) and e.value.value.id == "Idx":
+        if isinstance(e.value, ast.Subscript) and isinstance(e.value.value, ast.Name) and e.value.value.id == self.nm["Idx"]:
             j = self.int_of(e.value.slice)
             sl = e.slice
             if j is None or not isinstance(sl, ast.Tuple) or len(sl.elts) != 2:
@@ -298,11 +362,11 @@ class Ranges:
                 self._select(e, sel, j, "columns")
                 return Mat(0, [("modes", j, self.d)], sel.length if isinstance(sel, Vec) else None)
             raise _Fail()
-        if isinstance(e.value, ast.Name) and e.value.id in ("cores", "Ps"):
+        if isinstance(e.value, ast.Name) and e.value.id in (self.nm["cores"], self.nm["Ps"]):
             j = self.int_of(e.slice)
             if j is None:
                 raise _Fail()
-            return self._role(e.value.id, j)
+            return self._role("cores" if e.value.id == self.nm["cores"] else "Ps", j)
         base = self.ev(e.value)
         sl = e.slice
         if isinstance(base, Tup):
@@ -521,21 +585,59 @@ class Ranges:
         if last in ("randn", "zeros", "rand") and args:
             shp = self._shape_list(args[0])
             if shp is not None:
+                if last == "zeros" and any(kw.arg == "dtype" and "int" in norm(kw.value) for kw in e.keywords) and None not in shp and -1 not in shp:
+                    return IGrid(shp, ONE)
                 return Sh(shp)
+            raise _Fail()
+        if last in ("repeat_interleave", "repeat") and isinstance(fn, ast.Attribute) and len(args) == 1:
+            v = self.ev(fn.value)
+            n = self.int_of(args[0])
+            if isinstance(v, Vec) and n is not None:
+                return Vec(None if v.length is None else v.length * n, v.bound, v.ones)
             raise _Fail()
         if last == "diag" and args:
             v = self.ev(args[0])
             if isinstance(v, Sh) and len(v.shape) == 1:
                 return Sh([v.shape[0], v.shape[0]])
             raise _Fail()
+        if isinstance(fn, ast.Name) and fn.id != self.callback:
+            callee = self.model.functions.get(f"{self.f.module.name}.{fn.id}")
+            if callee is not None and self.depth < 2 and not e.keywords:
+                return self._inline(callee, args)
         raise _Fail()
+
+    def _inline(self, callee: Func, args):
+        """evaluate a helper of the same module with the caller's arrays bound to its parameters (role arrays keep their role)"""
+        params = callee.params()
+        if len(args) > len(params):
+            raise _Fail()
+        saved = (self.env, dict(self.nm), self.orders, self.f_cur)
+        role_of = {v: k for k, v in self.nm.items()}
+        env2, nm2 = {}, dict(self.nm)
+        for p_, a in zip(params, args):
+            if isinstance(a, ast.Name) and a.id in role_of:
+                nm2[role_of[a.id]] = p_
+            else:
+                env2[p_] = self.ev(a)
+        from .rules import order_names
+        self.env, self.nm, self.orders, self.f_cur = env2, nm2, order_names(callee.node) | {"d"}, callee
+        self.depth += 1
+        try:
+            try:
+                self.block(callee.node.body)
+            except _Ret as r:
+                return r.v
+            return UNK
+        finally:
+            self.depth -= 1
+            self.env, self.nm, self.orders, self.f_cur = saved[0], saved[1], saved[2], saved[3]
 
     # ------------------------------------------------------------------ statements
     def run(self):
         f = self.f
         loops = [n for n in ast.walk(f.node) if isinstance(n, ast.For) and isinstance(n.target, ast.Name) and isinstance(n.iter, ast.Call)
-                 and norm(n.iter.func) == "range" and any(isinstance(x, ast.Name) and x.id == "d" for x in ast.walk(n.iter))
-                 and any(isinstance(x, ast.Subscript) and isinstance(x.value, ast.Name) and x.value.id == "Idx" for x in ast.walk(n))]
+                 and norm(n.iter.func) == "range" and any(isinstance(x, ast.Name) and x.id in self.orders for x in ast.walk(n.iter))
+                 and any(isinstance(x, ast.Subscript) and isinstance(x.value, ast.Name) and x.value.id == self.nm["Idx"] for x in ast.walk(n))]
         loops = [l for l in loops if not any(o is not l and any(m is l for m in ast.walk(o)) for o in loops)]
         if len(loops) < 3:
             self.obs.append(Ob("X2-STORE", f"{self.short}:X2:loops", ERROR, self.model.where(f), self.short,
@@ -548,7 +650,7 @@ class Ranges:
             self.env = {l.target.id: IntV(self.k)}
             self.var = l.target.id
             # role of the loop-carried R factor of the initialisation loop
-            self.env["Rm"] = Sh([_sz("rank", self.facts.norm(self.k + 1)), _sz("rank", self.facts.norm(self.k + 1))])
+            self.env[self.nm["Rm"]] = Sh([_sz("rank", self.facts.norm(self.k + 1)), _sz("rank", self.facts.norm(self.k + 1))])
             self.block(l.body)
         return self.obs
 
@@ -570,12 +672,14 @@ class Ranges:
         if isinstance(s, ast.Expr):
             self.ev(s.value)
             return
+        if isinstance(s, ast.Return) and self.depth > 0:
+            raise _Ret(self.ev(s.value) if s.value is not None else UNK)
         if not isinstance(s, ast.Assign) or len(s.targets) != 1:
             return
         self.gathers(s)
         t = s.targets[0]
         # rank[e] = X.shape[i]: from here on the symbol rank[e] denotes that size
-        if isinstance(t, ast.Subscript) and isinstance(t.value, ast.Name) and t.value.id == "rank":
+        if isinstance(t, ast.Subscript) and isinstance(t.value, ast.Name) and t.value.id == self.nm["rank"]:
             i = self.int_of(t.slice)
             v = self.int_of(s.value)
             if i is not None and v is not None:
@@ -589,7 +693,7 @@ class Ranges:
                             self.facts.set_sub(a, self.facts.norm(r - rest), "rank update")
                             break
             return
-        if isinstance(t, ast.Subscript) and isinstance(t.value, ast.Name) and t.value.id == "Idx":
+        if isinstance(t, ast.Subscript) and isinstance(t.value, ast.Name) and t.value.id == self.nm["Idx"]:
             self.store(s, t)
             return
         val = self.ev(s.value)
